@@ -338,3 +338,25 @@ PROPS["C09"] = pbt(
             "negative_for_unsigned|sub_integer": 0.10, "bool_djb2_neighbour|sub_bool": 0.20,
             "subnormal_literal|sub_float": 0.08, "lit_tie|sub_float": 0.08},
 )
+
+PROPS["C14"] = pbt(
+    "pbt_c14", "pbt_c14.cpp",
+    rule=("cells (field kind x length x API path): kinds {key, value, continuation line, section, comment before (one "
+          "long line | many lines), comment after, config name, suffix, drop-in name, directory name, total path, "
+          "PARSING_DIRS option item}; lengths {1, BUFSIZ-2..BUFSIZ+2, 2*BUFSIZ, 64Ki, 1Mi} for in-file fields, "
+          "{1, NAME_MAX-1, NAME_MAX, NAME_MAX+1} for names, PATH_MAX-3..PATH_MAX+2 for the total path; API paths "
+          "{read->getters/listings, read->extended getter, read->merge->getters, read->write->read, layered read with "
+          "callback path, set->write->read}; position-dependent filler 0001|0002|... so that truncation, duplication "
+          "and shifts are visible. --mode grid visits every applicable cell once (both tiers); the rapidcheck part "
+          "samples cells with other fillers and lengths BUFSIZ-8..BUFSIZ+8. Oracle: bytes returned = bytes written; "
+          "beyond an OS limit a clean error and no content. non-trivial = length >= BUFSIZ-2 or at a name/path limit; "
+          "distinct = (kind, length, path)"),
+    technique="boundary-value grid enumeration + property-based sampling with position-dependent fillers and byte-equality oracle, rapidcheck",
+    level_text=("every cell of the kind x length x API-path grid is visited in both tiers (complete for the grid, "
+                "reported under exhaustive_subspaces); 3k (quick) / 80k (thorough) sampled cells with varying fillers "
+                "and neighbouring lengths; ASan+UBSan watch the buffers."),
+    level_note="names longer than NAME_MAX / paths longer than PATH_MAX cannot be created: for those cells only 'rejected cleanly, no content' is testable",
+    quick={"cases": 3000, "modes": [["grid", str(k), "16"] for k in range(16)]},
+    thorough={"cases": 80000, "modes": [["grid", str(k), "16"] for k in range(16)]},
+    floors={},
+)
